@@ -196,7 +196,8 @@ func runCLHTScenario(sc clhtScenario) clhtResult {
 	}
 	var fns []func()
 	if sc.Resizes > 0 {
-		fns = append(fns, resizer)
+		// two resizers: a late one must re-read the table after winning the flag
+		fns = append(fns, resizer, resizer)
 	}
 	for c := 1; c <= sc.Clients; c++ {
 		fns = append(fns, client(c))
